@@ -109,6 +109,27 @@ def sto_rule(F, rep, rid, exempt, only=None, require_screen=False):
             else:
                 rep.fail(rid, key, f.where(n), '%s can throw %s: handlers=%s, recogniser screening=%s' % (
                     render(n), 'std::invalid_argument' if oor else 'std::invalid_argument/std::out_of_range', hs, how))
+    # other conversion primitives: their accepted language and error channel differ from std::sto*
+    for f in sorted(F.funcs.values(), key=lambda f: (f.file, f.line)):
+        if only is not None and not only(f):
+            continue
+        for n in f.walk():
+            if n.get('k') != 'Call':
+                continue
+            cal = n.get('callee', '') or ''
+            if cal in ('std::from_chars',) or cal in ('strtol', 'strtod', 'strtoul', 'atoi', 'atof', 'atol', 'sscanf', 'std::strtol', 'std::strtod', 'std::atoi', 'std::atof'):
+                n_sites += 1
+                key = '%s|%s' % (f.short, cal)
+                if cal != 'std::from_chars':
+                    rep.fail(rid, key, f.where(n), '%s converts with %s, which skips leading blanks and reports nothing for trailing text or overflow' % (f.short, cal))
+                    continue
+                txt = ' '.join(render(x) for x in f.walk() if x.get('k') in ('Bin', 'Call') and ((x.get('op') or x.get('opc')) in ('==', '!=')))
+                success_only = 'std::errc()' in txt or 'errc{}' in txt
+                plus = "43" in txt or "'+'" in txt
+                rep.check(success_only and plus, rid, key, f.where(n),
+                          '%s converts with std::from_chars but %s: from_chars rejects the leading "+" that the CellML integer grammar allows and leaves the result untouched on failure' % (
+                              f.short, ' and '.join(([] if success_only else ['success is not tested as `ec == std::errc()`']) + ([] if plus else ['a leading "+" is not handled']))),
+                          'ec == std::errc() is required and a leading "+" is handled')
     return n_sites
 
 
